@@ -142,6 +142,7 @@ def _run_path(eng, fi, c, case, rep, suffix):
             for pred in preds:
                 for label, term in eng.spec_terms(pred, env2):
                     eng.oblige(f'post:{label}', term, kind='post', props=[tag])
+                    eng.assume(term)        # staged: a clause, once an obligation, is a hypothesis for the later ones
         eng.frame_check(eng.pre_state, c.modifies, env, 'normal', c.frame_props or c.props)
     else:
         ex = outcome[1]
